@@ -4317,13 +4317,15 @@ impl<'a> Tyck<'a> for TyEnvT<su::TermId> {
                 }
             }
             | Tm::Var(def) => {
-                let annotation =
-                    tycker.statics.annotations_var.get(&def).copied().unwrap_or_else(|| {
-                        panic!(
-                            "resolved variable `{}` reached the checker before its binder",
-                            tycker.def_name(&def).plain()
-                        )
-                    });
+                let annotation = match tycker.statics.annotations_var.get(&def).copied() {
+                    | Some(annotation) => annotation,
+                    // Name resolution orders binders before their uses, so only a
+                    // recursive definition can be met before it is classified: its
+                    // own annotation (or a parameter annotation) refers to it, as in
+                    // `def T : T = ...`. Such a definition has no usable annotation.
+                    | None => tycker
+                        .err_k(TyckError::MissingAnnotation, std::panic::Location::caller())?,
+                };
                 let ann = {
                     match switch {
                         | Switch::Syn => annotation,
